@@ -88,6 +88,7 @@ class PathTheory:
             self.ex.axioms.append(z3.ForAll([a], P(a, a)))
             self.ex.axioms.append(z3.ForAll([a, b, c], z3.Implies(z3.And(P(a, b), E[b, c]), P(a, c))))
             self.ex.axioms.append(z3.ForAll([a, b, c], z3.Implies(z3.And(E[a, b], P(b, c)), P(a, c))))
+            self.ex.axioms.append(z3.ForAll([a, b, c], z3.Implies(z3.And(P(a, b), P(b, c)), P(a, c))))
             self.rels[k] = P
             self.ex.assumed.add("Path_E axiomatised as a reflexive relation closed under E-steps; leastness only through "
                                 "explicitly listed induction instances (each a theorem of the least fix-point)")
@@ -99,6 +100,17 @@ class PathTheory:
         a, b = fresh("a", Atom), fresh("b", Atom)
         closed = z3.ForAll([a, b], z3.Implies(z3.And(S[a], E[a, b]), S[b]))
         return z3.Implies(closed, z3.ForAll([a, b], z3.Implies(z3.And(S[a], P(a, b)), S[b])))
+
+    def induct_rel(self, E, Rf):
+        """Rf reflexive and closed under E-steps on the right  =>  Path_E subseteq Rf (Rf: python fn (a,b)->Bool)."""
+        P = self.path(E)
+        a, b, c = fresh("a", Atom), fresh("b", Atom), fresh("c", Atom)
+        hyp = z3.And(z3.ForAll([a], Rf(a, a)), z3.ForAll([a, b, c], z3.Implies(z3.And(Rf(a, b), E[b, c]), Rf(a, c))))
+        return z3.Implies(hyp, z3.ForAll([a, b], z3.Implies(P(a, b), Rf(a, b))))
+
+    def acyclic(self, E):
+        a, b = fresh("a", Atom), fresh("b", Atom)
+        return z3.ForAll([a, b], z3.Implies(E[a, b], z3.Not(self.path(E)(b, a))))
 
     def induct_backward(self, E, S):
         """S closed under E-predecessors  =>  S closed under Path^-1."""
@@ -307,6 +319,9 @@ class Lib:
             mro = ex.classes.get(target.cls, {}).get("mro", [target.cls])
             rest = mro[mro.index(after) + 1:] if after in mro else ["DiGraph"]
             for c in rest:
+                if (c, name) in ASSUMED_WRAPPERS:
+                    ex.assumed.add(f"{c}.{name} is a thin wrapper forwarding to networkx (assumed contract = networkx contract)")
+                    c = "DiGraph" if target.fields["_directed"] else "Graph"
                 r = self.graph_method(ex, c, target, name, args, kwargs, st)
                 if r is not NotImplemented:
                     return r
